@@ -29,7 +29,7 @@ use crate::runner::run_cases;
 pub const SPEC: PropSpec = PropSpec {
     id: "C20",
     level: "exploration",
-    rule: "E5 schedules: 2-4 subscriber API tasks (subscribe, yields, maybe unsubscribe), their receiver tasks (recv n times, maybe drop the receiver), 1-2 publishers with unique (publisher, counter) payloads and a len() caller, all built from the real SubscriptionHub futures and polled one at a time by a seeded executor (uniform random order, or PCT-style priorities with 1-3 change points, spurious polls included); channel capacities 1/2/8/128; at a random point all receiver tasks are frozen (never polled again) and only hub-API tasks run in rounds. Offline checker over the call/return log: N1 every publish completes within 2 x (#hub-API tasks) + 2 rounds with all receivers frozen, and no run stalls with a publisher pending; N2 every received line's method is <topic>.update of the subscriber's topic; N3 params.subscription_id is the id returned to that subscriber, ids pairwise distinct; N4 per subscriber and publisher the counters strictly increase, no line twice; N5 nothing published (call event) after an unsubscribe returned is received by that subscription, and - physically, on the multi-thread runtime - nothing lands in a subscriber's channel after its unsubscribe() returned and the channel was drained; N6 after final publishes the hub holds exactly the live subscriptions (closed receivers pruned, unsubscribed removed). Real-runtime lanes: the same programs on the 4-worker tokio runtime (N2-N5), a paused-clock lane (publish under a virtual 10 s time-out with full / closed channels), and the production control socket with a subscriber that never reads, one that disconnects abruptly and a well-behaved one that must keep receiving ordered events. Non-trivial = schedule with a Full drop, a Closed prune, or an unsubscribe / subscribe racing a publish; distinct = distinct hashes of the poll sequence (task kind per step).",
+    rule: "E5 schedules: 2-4 subscriber API tasks (subscribe, yields, maybe unsubscribe), their receiver tasks (recv n times, maybe drop the receiver), 1-2 publishers with unique (publisher, counter) payloads and a len() caller, all built from the real SubscriptionHub futures and polled one at a time by a seeded executor (uniform random order, or PCT-style priorities with 1-3 change points, spurious polls included); channel capacities 1/2/8/128; at a random point all receiver tasks are frozen (never polled again) and only hub-API tasks run in rounds. Offline checker over the call/return log: N1 every publish completes within 2 x (#hub-API tasks) + 2 rounds with all receivers frozen, and no run stalls with a publisher pending; N2 every received line's method is <topic>.update of the subscriber's topic; N3 params.subscription_id is the id returned to that subscriber, ids pairwise distinct; N4 per subscriber and publisher the counters strictly increase, no line twice; N5 nothing published (call event) after an unsubscribe returned is received by that subscription, and - physically, on the multi-thread runtime - nothing lands in a subscriber's channel after its unsubscribe() returned and the channel was drained; N6 after final publishes the hub holds exactly the live subscriptions (closed receivers pruned, unsubscribed removed). Real-runtime lanes: the same programs on the 4-worker tokio runtime (N2-N5), a paused-clock lane (publish under a virtual 10 s time-out with full / closed channels), and the production control socket with a subscriber that never reads, one that disconnects abruptly and a well-behaved one that must keep receiving ordered events. Non-trivial = schedule with a Full drop, a Closed prune, or an unsubscribe / subscribe racing a publish; distinct = distinct hashes of the poll sequence (task kind per step). E6 live lane (12 sessions quick / 96 thorough; DESIGN.md 9.1): against the production sender process carrying client traffic, a control-socket client takes 60 stats subscriptions and never reads a byte while another subscribes and disconnects abruptly; for 8 sender ticks the reading subscriber must keep receiving stats pushes (no 15 s gap while the harness loop itself never stalled), get_subscription_count must answer 61, and 3 ticks after the stalled client left it must answer 1.",
     assumptions: &[
         "interleavings are sampled (uniform + PCT-style), not enumerated; on the single-threaded E5 executor every hub call completes within one poll (its only await is the uncontended mutex), so E5 explores interleavings between operations and the frozen-receiver phase, while overlaps INSIDE an operation (unsubscribe / subscribe racing a publish) come from the multi-thread runtime lane",
         "a publisher may wait for another hub-API task that was handed the fair mutex and has not been polled yet; it may never need a receiver task to run",
@@ -46,6 +46,8 @@ pub const SPEC: PropSpec = PropSpec {
         ("race.subscribe_during_publish", 100, 4_000),
         ("N5.checked_after_unsubscribe", 2_000, 80_000),
         ("N5.physical_unsubscribe_rounds", 300, 4_000),
+        ("live.C20.stalled_subscriber_phases_survived", 8, 64),
+        ("live.C20.cleanup_checked", 8, 64),
         ("N6.final_len_checked", 20_000, 800_000),
         ("runtime.operations", 20_000, 600_000),
         ("paused_clock.publishes", 2_000, 50_000),
@@ -538,7 +540,22 @@ fn runtime_lane(cfg: &RunCfg, rep: &mut Report) {
     let rounds = cfg.cases(2_500, 40_000);
     let mut rng = Rng::derive(cfg.seed, &[0xC20, 1]);
     let lane_start = Instant::now();
-    for _ in 0..rounds {
+    // The overlap counters (an unsubscribe / subscribe call racing a publish) depend on real parallelism, which a
+    // loaded machine grants less of: beyond the planned rounds, keep going until both reach their coverage floor
+    // (at most 8x the rounds and 90 s / 900 s) instead of ending the lane short of it.
+    let floor = |name: &str| SPEC.floors.iter().find(|f| f.0 == name).map(|f| if cfg.tier == crate::report::Tier::Quick { f.1 } else { f.2 }).unwrap_or(0) * cfg.scale_mul / cfg.scale_div.max(1);
+    let (need_u, need_s) = (floor("race.unsubscribe_during_publish") + 10, floor("race.subscribe_during_publish") + 10);
+    let extra_budget = Duration::from_secs(if cfg.tier == crate::report::Tier::Quick { 90 } else { 700 });
+    let mut round = 0u64;
+    loop {
+        if round >= rounds {
+            let short = rep.get("race.unsubscribe_during_publish") < need_u || rep.get("race.subscribe_during_publish") < need_s;
+            if !short || round >= rounds * 8 || lane_start.elapsed() > extra_budget || cfg.lane.is_some() {
+                break;
+            }
+            rep.count("runtime.extra_rounds_for_overlap_floor");
+        }
+        round += 1;
         let plan = gen_plan(&mut rng);
         let hub = SubscriptionHub::new();
         let log = Arc::new(Log::default());
@@ -580,6 +597,10 @@ fn runtime_lane(cfg: &RunCfg, rep: &mut Report) {
     // A publisher hammers one topic that also has several permanently full capacity-1 subscribers (long fan-out
     // loop, large payload); a victim subscribes, waits a little, unsubscribes, drains what is buffered at that
     // instant and then watches its channel: any line that appears later was sent after the unsubscribe completed.
+    if rep.violations.iter().any(|v| v.signature == "C20.N1.publish-blocked") {
+        // blocked tasks are parked on this runtime; the remaining lanes would only wait on them
+        return;
+    }
     let rounds = cfg.cases(400, 6_000);
     let lane_start = Instant::now();
     for round in 0..rounds {
@@ -588,6 +609,7 @@ fn runtime_lane(cfg: &RunCfg, rep: &mut Report) {
         let fulls = 2 + rng.usize_below(6);
         let payload = "x".repeat(*rng.pick(&[16usize, 4_000, 60_000]));
         let late: Option<String> = rt.block_on(async {
+          let body = async {
             let mut keep = Vec::new();
             for _ in 0..fulls {
                 let (tx, rx) = mpsc::channel::<String>(1);
@@ -621,10 +643,21 @@ fn runtime_lane(cfg: &RunCfg, rep: &mut Report) {
             stop.store(true, Ordering::Relaxed);
             let _ = publisher.await;
             let _ = (removed, before, keep);
-            late.map(|l| l.chars().take(90).collect())
+            late.map(|l| l.chars().take(90).collect::<String>())
+          };
+          // a hub that blocks (publish awaiting a full channel while holding the lock) would park this round for
+          // ever: bounded wait, reported as the N1 violation it is
+          match tokio::time::timeout(Duration::from_secs(20), body).await {
+              Ok(v) => v,
+              Err(_) => Some("<<hub call blocked>>".to_string()),
+          }
         });
         rep.eval();
         rep.count("N5.physical_unsubscribe_rounds");
+        if late.as_deref() == Some("<<hub call blocked>>") {
+            rep.violation("C20.N1.publish-blocked", format!("real runtime, physical-N5 round {round}: subscribe / unsubscribe / publish did not complete within 20 s with {fulls} permanently full capacity-1 co-subscribers"));
+            break;
+        }
         if let Some(l) = late {
             rep.violation("C20.N5.delivered-after-unsubscribe", format!("real runtime, round {round}: a line landed in the subscriber's channel after its unsubscribe() had returned and the channel had been drained ({fulls} full capacity-1 co-subscribers, payload {} B): {l}...", payload.len()));
             break;
@@ -745,6 +778,11 @@ fn socket_lane(cfg: &RunCfg, rep: &mut Report) {
 }
 
 pub fn run(cfg: &RunCfg) -> Report {
+    if crate::live::is_live_lane(cfg) {
+        let mut rep = Report::new();
+        crate::live::prop_lane(cfg, &mut rep, "C20", &[(crate::live::Scenario::StalledSubscriber, 1)]);
+        return rep;
+    }
     let cases = cfg.cases(40_000, 1_600_000);
     let mut rep = run_cases(cfg, 0, cases, Duration::from_secs(3600), |_c, rng, rep| run_schedule(rng, rep));
     if cfg.replay_case.is_none() && cfg.lane.as_deref() != Some("miri") {
@@ -752,6 +790,10 @@ pub fn run(cfg: &RunCfg) -> Report {
         if cfg.lane.is_none() {
             socket_lane(cfg, &mut rep);
         }
+    }
+    // E6: a stalled subscriber against the production event loop carrying traffic
+    if cfg.lane.is_none() || crate::live::is_live_lane(cfg) {
+        crate::live::prop_lane(cfg, &mut rep, "C20", &[(crate::live::Scenario::StalledSubscriber, 1)]);
     }
     rep
 }
